@@ -295,6 +295,7 @@ func genC17(env *Env) *Gen {
 		g.addFunc(env, fn)
 		g.Static = append(g.Static, frame.PipelineShape(env.Prog, fn, []string{"pkg/paths.Path).ReadFileAsString", "pkg/prebuild/builder.Run", "pkg/prebuild/directive.Run", "pkg/paths.Path).WriteFile"}))
 		g.Static = append(g.Static, frame.ErrorsPropagated(env.Prog, fn, "pkg/prebuild/builder.Run"))
+		g.Static = append(g.Static, frame.AllFilesOf(env.Prog, fn, "RootApparmord"))
 	} else {
 		g.OutOfDate = append(g.OutOfDate, "pkg/prebuild/cli:Build")
 	}
